@@ -1,3 +1,4 @@
+#include <algorithm>
 #include <cstring>
 
 #include <asam_cmp/decoder.h>
@@ -100,8 +101,10 @@ Decoder::SegmentedPacket::SegmentedPacket(
     , curMessageType(messageType)
     , curSegment(sequenceCounter)
 {
-    payload.resize(size);
-    memcpy(payload.data(), data, size);
+    // Bytes that follow the declared payload of the segment (e.g. padding) are not part of the message
+    const size_t segmentSize = sizeof(MessageHeader) + reinterpret_cast<const MessageHeader*>(data)->getPayloadLength();
+    payload.resize(std::min(size, segmentSize));
+    memcpy(payload.data(), data, payload.size());
 }
 
 bool Decoder::SegmentedPacket::addSegment(
